@@ -134,7 +134,7 @@ def run_case(case):
             return False
         subs = [tuple(s) for s in node.sub_segments]
         try:
-            fog = fog.explore(common.vary(p, True), common.vary(subs))
+            fog = fog.explore(common.vary(p, True), common.vary(subs, gen=True))
             res.emit("fog.explore %d %s %s" % (fid, nibstr(p), plist(subs)), str(nfogs))
             fid = nfogs
             nfogs += 1
@@ -144,7 +144,7 @@ def run_case(case):
             return False
         if use_cache:
             if subs:
-                cache.add(common.vary(p, True), node, common.vary(subs))
+                cache.add(common.vary(p, True), node, common.vary(subs, gen=True))
                 reg = len(regs)
                 res.emit("hx.reglast", str(reg))
                 regs[id(node)] = reg
